@@ -1,0 +1,206 @@
+/*
+Verification hooks for deterministic simulation. Everything in this file is compiled only when the
+macro OPTREE_VERIF_HOOKS is defined (the build defines it when the environment variable
+OPTREE_VERIF is set). With the macro undefined this header is empty and nothing else in the
+code base refers to it.
+================================================================================
+*/
+
+#pragma once
+
+#ifdef OPTREE_VERIF_HOOKS
+
+#include <cstdint>          // std::uintptr_t
+#include <functional>       // std::function
+#include <map>              // std::map
+#include <shared_mutex>     // std::shared_mutex
+#include <source_location>  // std::source_location
+#include <string>           // std::string
+#include <utility>          // std::move
+#include <vector>           // std::vector
+
+#include <Python.h>
+
+#include <pybind11/pybind11.h>
+
+namespace optree_verif {
+
+namespace py = pybind11;
+
+// All state below is touched only with the GIL held (the engine never releases the GIL).
+
+class shared_mutex;
+
+struct State {
+    std::vector<shared_mutex*> locks{};
+    PyObject* hook{nullptr};  // callable(site: str, mode: str, holders: list) or nullptr
+    py::ssize_t type_cache_cap{4096};
+    std::vector<std::pair<std::string, std::function<py::object()>>> snapshots{};
+};
+
+inline State& GetState() {
+    static State* state = new State{};  // intentionally leaked: used during interpreter teardown
+    return *state;
+}
+
+inline py::ssize_t TypeCacheCap() { return GetState().type_cache_cap; }
+
+// An instrumented drop-in for std::shared_mutex: same blocking semantics, plus (a) it knows where
+// it was declared, (b) it knows which Python threads hold it, (c) before blocking it tells the
+// registered hook, which may raise to turn a certain deadlock into an exception.
+class shared_mutex {
+public:
+    explicit shared_mutex(const std::source_location loc = std::source_location::current())
+        : m_file{loc.file_name()}, m_line{loc.line()} {
+        GetState().locks.push_back(this);
+    }
+    ~shared_mutex() = default;  // static storage only; never unregistered
+
+    shared_mutex(const shared_mutex&) = delete;
+    shared_mutex& operator=(const shared_mutex&) = delete;
+    shared_mutex(shared_mutex&&) = delete;
+    shared_mutex& operator=(shared_mutex&&) = delete;
+
+    void lock() {
+        if (!m_mutex.try_lock()) {
+            WouldBlock("write");
+            m_mutex.lock();
+        }
+        m_writer = Ident();
+        m_has_writer = true;
+        ++m_acquisitions;
+    }
+    bool try_lock() {
+        if (m_mutex.try_lock()) {
+            m_writer = Ident();
+            m_has_writer = true;
+            ++m_acquisitions;
+            return true;
+        }
+        return false;
+    }
+    void unlock() {
+        m_has_writer = false;
+        m_mutex.unlock();
+    }
+    void lock_shared() {
+        if (!m_mutex.try_lock_shared()) {
+            WouldBlock("read");
+            m_mutex.lock_shared();
+        }
+        ++m_readers[Ident()];
+        ++m_acquisitions;
+    }
+    bool try_lock_shared() {
+        if (m_mutex.try_lock_shared()) {
+            ++m_readers[Ident()];
+            ++m_acquisitions;
+            return true;
+        }
+        return false;
+    }
+    void unlock_shared() {
+        const auto it = m_readers.find(Ident());
+        if (it != m_readers.end() && --(it->second) == 0) {
+            m_readers.erase(it);
+        }
+        m_mutex.unlock_shared();
+    }
+
+    [[nodiscard]] std::string Site() const {
+        std::string file{m_file};
+        const auto pos = file.rfind("optree/");
+        const auto pos2 = file.rfind("src/");
+        if (pos2 != std::string::npos && (pos == std::string::npos || pos2 > pos)) {
+            file = file.substr(pos2);
+        } else if (pos != std::string::npos) {
+            file = file.substr(pos);
+        }
+        return file + ":" + std::to_string(m_line);
+    }
+
+    // list of (mode, thread ident)
+    [[nodiscard]] py::list Holders() const {
+        py::list holders{};
+        if (m_has_writer) {
+            holders.append(py::make_tuple("write", m_writer));
+        }
+        for (const auto& [ident, count] : m_readers) {
+            for (int i = 0; i < count; ++i) {
+                holders.append(py::make_tuple("read", ident));
+            }
+        }
+        return holders;
+    }
+
+    [[nodiscard]] std::uintptr_t Acquisitions() const { return m_acquisitions; }
+
+private:
+    static unsigned long Ident() { return PyThread_get_thread_ident(); }
+
+    void WouldBlock(const char* mode) const {
+        PyObject* const hook = GetState().hook;
+        if (hook == nullptr || !static_cast<bool>(PyGILState_Check())) {
+            return;
+        }
+        // May raise: the exception unwinds the operation that was about to block forever.
+        py::reinterpret_borrow<py::object>(hook)(Site(), mode, Holders());
+    }
+
+    std::shared_mutex m_mutex{};
+    const char* m_file;
+    unsigned m_line;
+    bool m_has_writer{false};
+    unsigned long m_writer{0};
+    std::map<unsigned long, int> m_readers{};
+    std::uintptr_t m_acquisitions{0};
+};
+
+struct SnapshotRegistrar {
+    SnapshotRegistrar(std::string name, std::function<py::object()> fn) {
+        GetState().snapshots.emplace_back(std::move(name), std::move(fn));
+    }
+};
+
+// {address of type object: cached value} for a `std::unordered_map<py::handle, bool|py::handle>`
+template <typename Map>
+inline py::object SnapshotTypeCache(const Map& cache) {
+    py::dict result{};
+    for (const auto& [type, value] : cache) {
+        py::object rendered;
+        if constexpr (std::is_same_v<std::remove_cvref_t<decltype(value)>, bool>) {
+            rendered = py::bool_(value);
+        } else {
+            rendered = py::reinterpret_borrow<py::object>(value);
+        }
+        result[py::int_(reinterpret_cast<std::uintptr_t>(type.ptr()))] = rendered;
+    }
+    return result;
+}
+
+template <typename Set>
+inline py::object SnapshotSize(const Set& set) {
+    return py::int_(set.size());
+}
+
+}  // namespace optree_verif
+
+#define OPTREE_VERIF_CONCAT_(a, b) a##b
+#define OPTREE_VERIF_CONCAT(a, b) OPTREE_VERIF_CONCAT_(a, b)
+
+#define OPTREE_VERIF_REGISTER_TYPE_CACHE(name, cache)                                              \
+    static const ::optree_verif::SnapshotRegistrar OPTREE_VERIF_CONCAT(verif_registrar_, __LINE__){ \
+        (name),                                                                                    \
+        []() -> ::pybind11::object { return ::optree_verif::SnapshotTypeCache(cache); }}
+
+#define OPTREE_VERIF_REGISTER_GUARD_SET(name, set)                                                 \
+    static const ::optree_verif::SnapshotRegistrar OPTREE_VERIF_CONCAT(verif_registrar_, __LINE__){ \
+        (name),                                                                                    \
+        []() -> ::pybind11::object { return ::optree_verif::SnapshotSize(set); }}
+
+#else  // !OPTREE_VERIF_HOOKS
+
+#define OPTREE_VERIF_REGISTER_TYPE_CACHE(name, cache) static_assert(true)
+#define OPTREE_VERIF_REGISTER_GUARD_SET(name, set) static_assert(true)
+
+#endif  // OPTREE_VERIF_HOOKS
